@@ -1,0 +1,10 @@
+//go:build verif
+
+package document
+
+import bo "github.com/benoitkugler/webrender/html/boxes"
+
+// VerifC02PageBox returns the laid out page box a Page was made from, so the
+// /verif check of property C02 can match the text boxes of a page with the
+// DrawText calls Write makes for it. Compiled only with `-tags verif`.
+func VerifC02PageBox(p Page) *bo.PageBox { return p.pageBox }
